@@ -129,8 +129,8 @@ InitInvKeys ==
 \*  ss: the inviter's server - "J" a remote server, "R" the invited user's own server (the event must still carry
 \*  a valid signature of that server: the local name proves nothing about a request that came over federation)
 InitInvFrom(fam, ss) ==
-    \* quick: for an inviter on the invited user's server the event shapes are a sample (the full product is in "inv")
-    LET few == Width = "quick" /\ ss = "R" IN
+    \* for an inviter on the invited user's server the event shapes are a sample (the full product is in "inv")
+    LET few == ss = "R" IN
     \E v \in Vers("inv"), rv \in (IF few THEN {"known"} ELSE {"known", "unknown"}), t \in (IF few THEN {"member"} ELSE {"member", "other"}),
        m \in (IF few THEN {"invite", "join"} ELSE {"invite", "join", "leave", "missing"}),
        sk \in (IF few THEN {"invitee", "otherlocal"} ELSE {"invitee", "otherlocal", "sender", "absent"}), rm \in {"main", "other"}, sig \in Sig6,
